@@ -171,6 +171,9 @@ func nontrivial(sc *Scenario, rr *RunResult) bool {
 }
 
 func account(sc *Scenario, rr *RunResult, res *core.Result, run int) {
+	if sc.Knobs.LargeValues {
+		res.Count("runs-with-values-of-several-hundred-KB", 1)
+	}
 	res.Steps += int64(rr.Steps)
 	res.SimNs += float64(rr.SimElapsed)
 	for k, v := range rr.Faults {
